@@ -457,3 +457,122 @@ def run_tokbias(run, P, units=('coap_pdu.c',)):
                                           '%s cuts the application token lengths at %d (%s), not at 13 or 269 where RFC 8974 changes the form of the token length: the boundary '
                                           'tokens take the wrong arm' % (short(x)[:70], cut, 'comparison on the on-wire size, which contains the extension bytes' if wire else 'comparison on the application length'), [])
     run.require(n >= (6 if run.cfg == 'base' else 4) or run.fixture_mode, 'R-CODEC-TAB(7): only %d comparisons with the extended-token bias macros found' % n)
+
+
+def run_tokmax(run, P):
+    """(8) the largest token the library accepts.  RFC 8974 2.1: the extended token length is 13 + 256 + 65535 = 65804 at most.  The header
+    picks COAP_TOKEN_EXT_MAX with a preprocessor test of UINT_MAX; what matters is the value the compiler folded into the library's own
+    comparisons (the same mechanism that once made COAP_MAX_OPT 65534: a test of a macro that is not defined yet silently takes the small
+    branch).  On a platform whose unsigned int holds 65804 -- every platform this check runs on -- the folded value is 65804."""
+    run.rule('R-CODEC-TAB')
+    try:
+        v = P.const_named('COAP_TOKEN_EXT_MAX')
+    except Exception:
+        run.require(run.fixture_mode, 'R-CODEC-TAB(8): COAP_TOKEN_EXT_MAX is not used anywhere in the library any more')
+        return
+    uint_max = None
+    try:
+        uint_max = P.const_named('UINT_MAX')
+    except Exception:
+        pass
+    want = 65804
+    run.instance('R-CODEC-TAB', 'COAP_TOKEN_EXT_MAX as folded into the library: %s' % v)
+    ok = v == want
+    run.oblige('R-CODEC-TAB', ok, 'token-ext-max')
+    if not ok:
+        loc = None
+        for f in P.lib_funcs():
+            for b in f['blocks']:
+                items = [(ev['e'], ev['loc']) for ev in b['elems']]
+                if b.get('term') and b['term'].get('cond') is not None:
+                    items.append((b['term']['cond'], b['term'].get('loc')))
+                for it, l in items:
+                    if loc is None and any(isinstance(y, dict) and y.get('mn') == 'COAP_TOKEN_EXT_MAX' for y in walk(it)):
+                        loc = (f['name'], l)
+        run.violation('R-CODEC-TAB', loc[0] if loc else 'coap_add_token', loc[1] if loc else None, 'token-ext-max-folded:%s' % v,
+                      'COAP_TOKEN_EXT_MAX is %s in the library, RFC 8974 allows tokens of up to %d bytes: the preprocessor test that chooses the value took its '
+                      'small-platform branch (a macro it tests is not defined at that point of the header), so tokens longer than %s bytes are refused' % (v, want, v), [])
+
+
+def run_marker(run, P, units=('coap_pdu.c',)):
+    """(9) no payload marker without payload.  The decoder rejects a message that ends in the payload marker 0xFF (RFC 7252 3: "the presence
+    of a marker followed by a zero-length payload MUST be processed as a message format error") -- R-PARSE-GATE checks that it does.  So the
+    encoder must never produce one: in every function of the codec unit that stores COAP_PAYLOAD_START into a PDU buffer, the path from
+    that store to the return increases the PDU's used_size by an amount that is known to be at least 1 (the length parameter tested
+    against 0 before, a constant, ...)."""
+    from core.psts import Env, solve, relevance, apply_generic
+    run.rule('R-CODEC-TAB')
+    try:
+        MARK = P.const_named('COAP_PAYLOAD_START')
+    except Exception:
+        MARK = 0xFF
+    n = 0
+    for f in sorted(P.lib_funcs(), key=lambda f: f['name']):
+        if f['unit'] not in units:
+            continue
+        stores = []
+        for b, ev in P.events(f):
+            t = ev['e']
+            if t.get('k') == 'asg' and t.get('op') == '=' and const_int(t['r']) == MARK and isinstance(strip(t['r']), dict) and strip(t['r']).get('mn') == 'COAP_PAYLOAD_START':
+                l = strip(t['l'])
+                if isinstance(l, dict) and l.get('k') in ('idx', 'sub', 'un'):
+                    stores.append(ev)
+        if not stores:
+            continue
+        name = f['name']
+        n += 1
+        run.instance('R-CODEC-TAB', '%s: the payload marker is followed by at least one payload byte' % name)
+
+        def grow(t):
+            if t.get('k') == 'asg' and t.get('op') == '+=':
+                l = strip(t['l'])
+                if isinstance(l, dict) and l.get('k') == 'mem' and l.get('f') == 'used_size':
+                    return t['r']
+            return None
+        lenvars = set()
+        for b, ev in P.events(f):
+            g = grow(ev['e'])
+            if g is not None:
+                for x in walk(g):
+                    if isinstance(x, dict) and ap(x):
+                        lenvars.add(ap(x))
+
+        def is_rule_event(ev):
+            return any(ev is s for s in stores) or grow(ev['e']) is not None or ev['e'].get('k') == 'ret'
+        keys, R = relevance(f, is_rule_event, lenvars)
+        R = set(R) | lenvars
+        keys = set(keys)
+        for b in f['blocks']:
+            c = (b.get('term') or {}).get('cond')
+            if c is not None and any(isinstance(x, dict) and ap(x) in lenvars for x in walk(c)):
+                keys.add(b['id'])
+
+        def on_event(ev, env, ctx):
+            t = ev['e']
+            if any(ev is s for s in stores):
+                e = apply_generic(ev, env, R).copy()
+                e.ts['open'] = ev['loc']
+                return [e]
+            g = grow(t)
+            if g is not None and env.ts.get('open'):
+                K = const_int(g)
+                pos = K is not None and K >= 1
+                if not pos and ap(strip(g)):
+                    lo, hi, ex = env.intf(ap(strip(g)))
+                    unsigned = strip(g).get('s') == 0
+                    pos = lo >= 1 or ((lo >= 0 or unsigned) and 0 in ex)
+                if pos:
+                    e = apply_generic(ev, env, R).copy()
+                    e.ts['open'] = None
+                    return [e]
+                return None
+            if t.get('k') == 'ret' and env.ts.get('open'):
+                run.oblige('R-CODEC-TAB', False, '%s:marker-followed-by-payload' % name)
+                run.violation('R-CODEC-TAB', name, env.ts['open'], 'marker-without-payload',
+                              'the payload marker is stored and the function returns on a path that did not add a payload of known non-zero length behind it: the message ends '
+                              'in 0xFF, which every decoder (this library\'s included) rejects as a format error', ctx.path())
+            elif t.get('k') == 'ret':
+                run.oblige('R-CODEC-TAB', True, '%s:marker-followed-by-payload' % name)
+            return None
+        solve(f, Env(), on_event, None, keys, R, key_fn=lambda e: (e.ts.get('open'), tuple((e.intf(v)[0] >= 1, 0 in e.intf(v)[2]) for v in sorted(lenvars))))
+    run.require(n >= 1 or run.fixture_mode, 'R-CODEC-TAB(9): no function of %s stores the payload marker any more' % (units,))
